@@ -782,6 +782,14 @@ func CheckC05(rr *RunResult, res *vprop.Result) {
 				}
 			}
 		}
+		// "with the plugin's context cancelled": an overrunning invocation that is still blocked when the run is over was
+		// never cancelled (the plugin returns within milliseconds of its context being done)
+		for _, inv := range invs {
+			if inv.Exit < 0 && a.StepOf(inv.N).Out == Overrun && !pr.Stalled {
+				res.Fail("C05/overrun-context-not-cancelled", "%s#%d overran its timeout and its context was still not cancelled when the plan had ended", r.Tag(), inv.N)
+				return
+			}
+		}
 		if pr.Final == nil || pr.Stalled {
 			return
 		}
